@@ -47,6 +47,8 @@ Module P1.
     - apply good_set_h. assumption.
     - apply good_set_h. assumption.
     - apply good_set_h. assumption.
+    - apply good_settle. apply good_fire. assumption.
+    - apply good_settle. apply good_fire. assumption.
   Qed.
 
   Theorem exec_is_run : forall cap sc,
@@ -102,6 +104,8 @@ Module P2.
     - apply good_set_h. assumption.
     - apply good_set_h. assumption.
     - apply good_set_h. assumption.
+    - apply good_settle. apply good_fire. assumption.
+    - apply good_settle. apply good_fire. assumption.
   Qed.
 
   Theorem exec_is_run : forall sc,
